@@ -85,9 +85,25 @@ def check_iterator_overrides(rep, F, rule, in_scope):
             short = "<%s as %s>::%s" % (ty, t.rsplit("::", 1)[1], name)
             path = F.short.get(short)
             calls = []
-            for p, b in F.bodies.items():
-                if path and (p == path or p.startswith(path + "::{closure")) and b.get("mir"):
-                    calls += [(c.get("resolved") or c.get("callee") or "") for c in b["mir"]["calls"]]
+            if path:
+                # the override with its closures and every crate function it reaches — except through a crate iterator's own
+                # `next` / same-named method (that is the delegation)
+                g = call_graph(F)
+                seen, todo = set(), [path]
+                while todo:
+                    x = todo.pop()
+                    if x in seen:
+                        continue
+                    seen.add(x)
+                    for y in g.get(x, ()):
+                        last = y.split("::{closure")[0].rsplit("::", 1)[-1]
+                        if y != path and not y.startswith(path + "::{closure") and last in ("next", "next_back", name) and " as " in y:
+                            continue
+                        todo.append(y)
+                for q in seen:
+                    b = F.bodies.get(q)
+                    if b and b.get("mir"):
+                        calls += [(c.get("resolved") or c.get("callee") or "") for c in b["mir"]["calls"]]
             own = [c for c in calls if c.rsplit("::", 1)[-1] in ("pop", "push", "extend", "index", "index_mut", "get_mut", "insert", "remove", "swap_remove", "truncate", "drain")]
             deleg = [c for c in calls if "Iterator" in c or c.rsplit("::", 1)[-1] in ("next", "next_back", name)]
             if path and deleg and not own:
